@@ -6,9 +6,9 @@ import re
 
 RE_RUNNING = re.compile(r'^Running (.+) tests:$')
 RE_SUMMARY = re.compile(
-    r'^  Ran (\d+) tests with (\d+) failures, (\d+) errors and (\d+) skipped in ')
+    r'^  Ran (\d+) tests with (\d+) failures, (\d+) errors(?: and|,) (\d+) skipped in ')
 RE_TOTAL = re.compile(
-    r'^Total: (\d+) tests, (\d+) failures, (\d+) errors and (\d+) skipped in ')
+    r'^Total: (\d+) tests, (\d+) failures, (\d+) errors(?: and|,) (\d+) skipped in ')
 RE_SETUP = re.compile(r'^  Set up (\S+) ?(in |$)')
 RE_TEARDOWN = re.compile(r'^  Tear down (\S+) ?(in |\.\.\. not supported|$)')
 RE_LISTING = re.compile(r'^Listing (.+) tests:$')
@@ -16,7 +16,12 @@ RE_SEED = re.compile(r'^Tests were shuffled using seed number (-?\d+)\.$')
 RE_ITER = re.compile(r'^Iteration (\d+)$')
 
 
+RE_ANSI = re.compile(r'\x1b\[[0-9;]*m')
+
+
 def parse(text):
+    # --color output: the same lines with SGR sequences around the words
+    text = RE_ANSI.sub('', text)
     lines = text.split('\n')
     rep = {
         'layers': [],          # per "Running" header, in order
